@@ -76,6 +76,11 @@ ASSUMPTIONS = [
     'un-stepped slice (documented by partition[::2])',
     'index(p) for p outside the interval: an exception or the adjacent outer '
     'cell is accepted',
+    'mutate-inputs: the arrays the harness passed to the factories '
+    '(coordinate vectors, min_pt/max_pt/cell_sides/shape as ndarrays) are '
+    'changed in place afterwards; every partition built so far must keep all '
+    'its invariants (attributes returned by the library are never written '
+    'to)',
     'a negative-step slice that selects exactly one cell (nothing to '
     'reverse) and the empty index list p[[]] (explicit branch returning the '
     '0-d partition) are unspecified: not generated / not judged',
@@ -177,24 +182,29 @@ def _nonuniform_axis(draw, rect=False):
 
 @st.composite
 def _partition(draw, max_ndim=4, small=False):
-    ctor = draw(st.sampled_from(['uniform', 'uniform', 'uniform',
-                                 'nonuniform', 'nonuniform', 'rect']))
+    ctor = draw(st.sampled_from(['uniform', 'uniform', 'uniform', 'uniform',
+                                 'nonuniform', 'nonuniform', 'nonuniform',
+                                 'rect', 'fromgrid']))
     ndim = draw(st.sampled_from([1, 1, 2, 2, 3, 4][:max_ndim + 2]
                                 if not small else [1, 1, 2]))
     ndim = min(ndim, max_ndim)
     if ctor == 'uniform':
         axes = [draw(_uniform_axis()) for _ in range(ndim)]
     else:
-        axes = [draw(_nonuniform_axis(rect=(ctor == 'rect')))
+        axes = [draw(_nonuniform_axis(rect=(ctor in ('rect', 'fromgrid'))))
                 for _ in range(ndim)]
     pd = {'ctor': ctor, 'axes': axes}
-    if ctor != 'rect':
-        styles = ['compact'] * 6 + ['pairs'] * 5
+    if ctor in ('rect', 'fromgrid'):
+        # how the harness hands over coordinate vectors and limits
+        pd['inputs_as'] = draw(st.sampled_from(['ndarray', 'ndarray',
+                                                'list']))
+    else:
+        styles = ['compact', 'compact', 'pairs', 'pairs']
         if ndim == 1:
             styles.append('bare')
         pd['nob_style'] = draw(st.sampled_from(styles))
         pd['arg_style'] = draw(st.sampled_from(['list', 'list', 'scalar',
-                                                'array']))
+                                                'array', 'array']))
     return pd
 
 
@@ -274,7 +284,7 @@ def _axis_sel(draw, allow_list=True):
     if k == 'slice':
         raw = st.sampled_from([None, 0, 1, 2, 3, -1, -2, 4])
         return ['slice', draw(raw), draw(raw),
-                draw(st.sampled_from([None, None, 1, 2]))]
+                draw(st.sampled_from([None, None, 1, 2, -1]))]
     if k == 'list':
         return ['list', draw(st.lists(st.integers(0, 99), min_size=0,
                                       max_size=3)),
@@ -286,7 +296,10 @@ def _axis_sel(draw, allow_list=True):
 def _op(draw):
     kind = draw(st.sampled_from(
         ['getitem'] * 10 + ['insert'] * 2 + ['append'] * 2 +
-        ['squeeze'] * 3 + ['byaxis'] * 3))
+        ['squeeze'] * 3 + ['byaxis'] * 3 + ['mutate-inputs'] * 2))
+    if kind == 'mutate-inputs':
+        return {'op': 'mutate-inputs',
+                'how': draw(st.sampled_from(['shift', 'reverse', 'fill']))}
     if kind == 'getitem':
         return {'op': 'getitem', 'idx': draw(_index_desc())}
     if kind == 'insert':
@@ -375,6 +388,7 @@ def build_uniform(pd, given_override=None):
         arg = _vec_arg(vals, style)
         if arg is not None:
             kwargs[key] = arg
+    inputs = [v for v in kwargs.values() if isinstance(v, np.ndarray)]
     region = _region(pd)
     try:
         part = odl.uniform_partition(**kwargs)
@@ -423,7 +437,7 @@ def build_uniform(pd, given_override=None):
                                            kwargs))
         model.append(Axis(c, got_lo, got_hi))
     info = {'kind': 'uniform', 'nob': [tuple(a['nob']) for a in axes],
-            'kwargs': kwargs}
+            'kwargs': kwargs, 'inputs': inputs}
     return part, model, info
 
 
@@ -440,6 +454,8 @@ def build_nonuniform(pd):
             kwargs[key + '_pt'] = arg
     vecs = [np.array(a['c'], dtype=float) if style != 'list' else list(a['c'])
             for a in axes]
+    inputs = [v for v in list(kwargs.values()) + vecs
+              if isinstance(v, np.ndarray)]
     region = _region(pd)
     try:
         part = odl.nonuniform_partition(*vecs, **kwargs)
@@ -471,22 +487,37 @@ def build_nonuniform(pd):
                     'points {} kwargs {!r}'.format(i, name, got, float(want),
                                                    a['c'], kwargs))
         model.append(Axis(c, got_lo, got_hi))
-    return part, model, {'kind': 'nonuniform',
+    return part, model, {'kind': 'nonuniform', 'inputs': inputs,
                          'nob': [tuple(a['nob']) for a in axes]}
 
 
 def build_rect(pd):
+    """``RectPartition(IntervalProd, RectGrid)`` or
+    ``uniform_partition_fromgrid(RectGrid, min_pt, max_pt)``."""
     axes = pd['axes']
-    intv = odl.IntervalProd([a['min'] for a in axes],
-                            [a['max'] for a in axes])
-    grid = odl.RectGrid(*[np.array(a['c'], dtype=float) for a in axes])
+    as_arrays = pd.get('inputs_as', 'ndarray') == 'ndarray'
+    mins = [a['min'] for a in axes]
+    maxs = [a['max'] for a in axes]
+    vecs = [list(a['c']) for a in axes]
+    if as_arrays:
+        mins, maxs = np.array(mins, dtype=float), np.array(maxs, dtype=float)
+        vecs = [np.array(v, dtype=float) for v in vecs]
+    inputs = [v for v in [mins, maxs] + vecs if isinstance(v, np.ndarray)]
+    grid = odl.RectGrid(*vecs)
     try:
-        part = odl.RectPartition(intv, grid)
+        if pd['ctor'] == 'fromgrid':
+            site = 'uniform_partition_fromgrid'
+            part = odl.uniform_partition_fromgrid(grid, min_pt=mins,
+                                                  max_pt=maxs)
+        else:
+            site = 'RectPartition'
+            part = odl.RectPartition(odl.IntervalProd(mins, maxs), grid)
     except REJECT as e:
-        raise Violation('C14|construct-rejected|RectPartition|plain',
+        raise Violation('C14|construct-rejected|{}|plain'.format(site),
                         'grid inside the interval rejected: {}'.format(e))
+    _require_partition(part, site, len(axes))
     model = [Axis(a['c'], a['min'], a['max']) for a in axes]
-    return part, model, {'kind': 'rect'}
+    return part, model, {'kind': 'rect', 'inputs': inputs}
 
 
 def build_partition(pd):
@@ -494,7 +525,7 @@ def build_partition(pd):
         return build_uniform(pd)
     if pd['ctor'] == 'nonuniform':
         return build_nonuniform(pd)
-    if pd['ctor'] == 'rect':
+    if pd['ctor'] in ('rect', 'fromgrid'):
         return build_rect(pd)
     raise HarnessError('unknown ctor ' + str(pd['ctor']))
 
@@ -987,6 +1018,14 @@ def run_case(desc):
     nprobe = check_index(part, model, 'init')
     check_set_ops(part, model)
     sweeps = 1
+    # construct / mutate-input / observe: the ndarrays handed to the library
+    # and every partition seen so far
+    inputs = list(info.get('inputs', []))
+    history = [(part, model, 'init')]
+    if any(a.dtype == np.float64 for a in inputs):
+        strata.append('inputs-as:float64-ndarray')
+    notes['mutated_arrays'] = 0
+    notes['history_rechecks'] = 0
 
     if init['ctor'] == 'uniform':
         nvar = check_variants(init, part, model)
@@ -996,6 +1035,27 @@ def run_case(desc):
         name = op['op']
         ndim = len(model)
         shape = tuple(a.n for a in model)
+        if name == 'mutate-inputs':
+            nmut = mutate_arrays(inputs, op['how'])
+            for old_part, old_model, label in history:
+                try:
+                    check_invariants(old_part, old_model, 'mutate-inputs')
+                except Violation as v:
+                    raise Violation(v.signature, 'step {}: after changing the '
+                                    '{} caller-owned input arrays in place '
+                                    '({}), the partition from "{}" changed: {}'
+                                    ''.format(k, nmut, op['how'], label,
+                                              v.detail))
+            if ndim:
+                nprobe += check_index(part, model, 'mutate-inputs',
+                                      full=False)
+            notes['mutated_arrays'] += nmut
+            notes['history_rechecks'] += len(history)
+            strata.append('op:mutate-inputs')
+            strata.append('mutate-inputs:' + ('ndarray-inputs' if nmut else
+                                              'no-ndarray-inputs'))
+            strata.append('mutate-how:' + op['how'])
+            continue
         if ndim == 0 and name not in ('insert', 'append'):
             strata.append('skipped:0-dim')
             continue
@@ -1023,6 +1083,9 @@ def run_case(desc):
             if ndim + sum(len(m) for m in pmodels) > MAX_NDIM:
                 strata.append('skipped:max-ndim')
                 continue
+            for b in built:
+                inputs.extend(b[2].get('inputs', []))
+                history.append((b[0], b[1], 'inserted part'))
             if name == 'insert':
                 pos = (op['pos'] % (2 * ndim + 1)) - ndim
                 if op['oob']:
@@ -1106,6 +1169,7 @@ def run_case(desc):
         if name == 'getitem' and not isinstance(idx, list):
             check_contiguous_boundaries(part, result, model, idx, where)
         part, model = result, new_model
+        history.append((part, model, shown))
         nprobe += check_index(part, model, where, full=False)
         sweeps += 1
         strata.append('op:' + cls)
@@ -1123,6 +1187,24 @@ def run_case(desc):
     nontriv = (len(desc['init']['axes']) >= 2 or has_bdry or
                'one-point-axis' in strata or 'nonuniform-axis' in strata)
     return Outcome('ok', strata=strata, nontrivial=nontriv, notes=notes)
+
+
+def mutate_arrays(arrays, how):
+    """Change the harness' own input arrays in place; returns how many."""
+    n = 0
+    for arr in arrays:
+        if not isinstance(arr, np.ndarray) or not arr.flags.writeable:
+            continue
+        if arr.dtype.kind in 'iu':
+            arr += 1
+        elif how == 'reverse' and arr.size > 1:
+            arr[:] = arr[::-1].copy()
+        elif how == 'fill':
+            arr[:] = 7.25
+        else:
+            arr += 1.5
+        n += 1
+    return n
 
 
 def check_set_ops(part, model):
@@ -1281,7 +1363,9 @@ def check_variants(init, part, model):
 
 
 REQUIRED_STRATA = [
-    'ctor:uniform', 'ctor:nonuniform', 'ctor:rect',
+    'ctor:uniform', 'ctor:nonuniform', 'ctor:rect', 'ctor:fromgrid',
+    'inputs-as:float64-ndarray', 'op:mutate-inputs',
+    'mutate-inputs:ndarray-inputs', 'nob_style:bare',
     'given:mMn', 'given:mnd', 'given:Mnd', 'given:mMd', 'given:mMnd',
     'nob:00', 'nob:01', 'nob:10', 'nob:11', 'four-params-with-bdry-node',
     'one-point-axis', 'nonuniform-axis', 'boundary-node',
